@@ -97,6 +97,11 @@ class C15(Prop):
                                             for _ in range(rng.choice([1, 2, 4])))
             yield Case('roundtrip', ('json', rng.choice(['path', 'gz', 'mem']), rng.random() < 0.5, jt))
             yield Case('roundtrip', ('jsonarrays', rng.choice(['path', 'mem']), jt))
+        # a genuine U+FEFF (and a backslash) at the very start of the file: first data cell with write_header=False
+        for enc in ('utf-8', 'utf8', 'UTF-8', 'utf-16'):
+            for sk in ('path', 'mem', 'gz'):
+                for q in (0, 1):
+                    yield Case('roundtrip', ('csv', ',', '"', q, enc, sk, False, (('\ufeffx', 'y'), ('a', '\ufeff'), ('\\', 'b\\c'))))
         if tier == 'thorough':
             for delim, quote, q in dl:
                 for a, b in itertools.product(NASTY, repeat=2):
